@@ -101,7 +101,7 @@ def ensure_facts(config):
         lock.close()
 
 
-def _prune(keep=8):
+def _prune(keep=14):
     gens = [os.path.join(CACHE, x) for x in os.listdir(CACHE) if not x.startswith(".")]
     gens = [g for g in gens if os.path.isdir(g)]
     gens.sort(key=lambda g: os.path.getmtime(g), reverse=True)
